@@ -65,9 +65,9 @@ T_ImFinalize == /\ IsEv("im_finalize") /\ NoPanic
 T_ImDrop == IsEv("im_drop") /\ IM_Drop
 
 T_WFinalize == /\ IsEv("w_finalize") /\ NoPanic
-               /\ ChkP(ENABLED W_Finalize(E.res), {"C10"}, "empty-guid-accepted")
+               /\ ChkP(ENABLED W_Finalize(E.res, E.custom), {"C10"}, "empty-guid-accepted")
                /\ ChkP((sc.guid # "" /\ ~sc.dead /\ ~E.custom) => IsOk(E.res), {"C10", "C01", "C04", "C06"}, "valid-call-rejected")
-               /\ W_Finalize(E.res)
+               /\ W_Finalize(E.res, E.custom)
 
 \* ------------------------------------------------------------------ the finalized file (C02, C01, C06)
 PcOk(img, L, pcnode, pc, i) ==
@@ -242,7 +242,7 @@ T_RReport == /\ IsEv("r_report") /\ RNoPanic
              /\ Len(E.res.ok.images) = Len(sc.images) => \A i \in 1..Len(sc.images) : RImOk(E.res.ok.images[i], sc.images[i])
              /\ ChkP(E.res.ok.coord = LastSet(sc.root, "coord"), {"C04"}, "coordinate-metadata")
              /\ ChkP(E.res.ok.creation = LastSet(sc.root, "creation"), {"C04"}, "creation-date-time")
-             /\ ChkP(E.res.ok.ext = sc.exts, {"C04"}, "registered-extensions")
+             /\ ChkP(~sc.custom => E.res.ok.ext = sc.exts, {"C04"}, "registered-extensions")
              /\ ChkP(E.res.ok.format = "ASTM E57 3D Imaging Data File", {"C04"}, "format-name")
              /\ res' = E.res /\ FileUnch
 
